@@ -528,7 +528,7 @@ class Inliner:
         for s in body:
             for n in ast.walk(s):
                 if hasattr(n, "lineno"):
-                    n.lineno = call.lineno
+                    n.lineno = getattr(call, "lineno", 1)
                     n.end_lineno = getattr(call, "end_lineno", call.lineno)
         return body
 
@@ -583,12 +583,12 @@ class Inliner:
         if not isinstance(body[-1], ast.Return) or body[-1].value is None or any(isinstance(x, (ast.If, ast.Raise)) for x in body[:-1]):
             # branching / refusing helpers: a conditional expression, with raise_(exc) standing for a raising branch
             val = self._body_expr(list(body), env, 0)
-            if val is None or not any(isinstance(n, ast.Call) and isinstance(n.func, ast.Name) and n.func.id == "raise_" for n in ast.walk(val)):
+            if val is None:
                 return None
             val = self.inline_exprs(val, d - 1, stack + (callee.name,))
             for n in ast.walk(val):
                 if hasattr(n, "lineno"):
-                    n.lineno = call.lineno
+                    n.lineno = getattr(call, "lineno", 1)
             return val
         for st in body[:-1]:
             if isinstance(st, ast.Expr) and isinstance(st.value, ast.Constant):
@@ -614,7 +614,7 @@ class Inliner:
         val = self.inline_exprs(val, d - 1, stack + (callee.name,))
         for n in ast.walk(val):
             if hasattr(n, "lineno"):
-                n.lineno = call.lineno
+                n.lineno = getattr(call, "lineno", 1)
         return val
 
     def _body_expr(self, stmts, env, depth):
@@ -815,6 +815,12 @@ class _ExprNorm(ast.NodeTransformer):
                 else:
                     args.append(a)
             node.args = args
+        # map(f, xs) -> (f(x) for x in xs)      (f a plain callable reference)
+        if f == "map" and len(node.args) == 2 and not node.keywords and norm._attr_chain(node.args[0]) is not None:
+            self._fresh[0] += 1
+            v = f"f{self._fresh[0]}m_"
+            call = ast.Call(func=node.args[0], args=[ast.Name(id=v, ctx=ast.Load())], keywords=[])
+            return ast.copy_location(ast.GeneratorExp(elt=call, generators=[ast.comprehension(target=ast.Name(id=v, ctx=ast.Store()), iter=node.args[1], ifs=[], is_async=0)]), node)
         # list(map(f, xs)) -> [f(x) for x in xs]
         if f == "list" and len(node.args) == 1 and not node.keywords and isinstance(node.args[0], ast.Call) and u(node.args[0].func) == "map" \
                 and len(node.args[0].args) == 2:
@@ -1469,9 +1475,8 @@ class Canon:
         b = strip_annotations(b)
         b = norm.merge_display_building(b)
         b = self._inline_unknown_constants(b, module, fn)
-        b2 = norm.unroll_literal_loops(b)
-        if len(b2) != len(b) or any(x is not y for x, y in zip(b, b2)):
-            b = [_ExprNorm().visit(s_) for s_ in b2]         # dispatch tables written out: apply the lambdas of the rows
+        b = norm.unroll_literal_loops(b)
+        b = [ast.fix_missing_locations(_ExprNorm().visit(s_)) for s_ in b]         # expression idioms first (map(f, xs), applied lambdas of table rows): helpers in them are then seen
         # nested function definitions that get inlined are dropped afterwards
         b = lower_matches(b, self._match_args(module, fn))
         b = lift_ifexp(b)
